@@ -88,7 +88,9 @@ def short_blocks(path):
                     if idx is None:
                         continue
                     vals = [float(x) for x in toks[idx + 1:]]
-                    keytext = b[:b.index(toks[idx], sum(len(x) for x in toks[:idx]))]
+                    import re
+                    spans = [m.span() for m in re.finditer(r'\S+', b)]
+                    keytext = b[:spans[idx][0]]              # everything in front of the index token (by position, not by search)
                     rows[keytext] = vals
             out.append({'kind': kind, 'rows': rows})
             i = k + 1
@@ -205,6 +207,13 @@ class Case(object):
                 return
             kind = spec[0].upper() + 'SHORT'
             in_short = short and kind in self.short_types and len(vals) != self.N
+            if len(vals) == self.N and short and kind in self.short_types and len(self.times) != self.N and \
+                    self.row_in_short_tables(table, kind, row):
+                # the row is printed in every short-output table of its kind (own scan of the text): its history with
+                # short output on must include those times
+                ctx.violation('short-output-values-dropped', 'item %r: %d values (full result times only); the row is printed in the %s tables, the listing has %d times incl. short output' % (
+                    (spec, row, col), len(vals), kind, len(self.times)), case)
+                return
             if len(vals) == self.N:
                 if not np.array_equal(times, self.fulltimes):
                     ctx.violation('times:full', 'item %r: times %r..., result times are %r...' % ((spec, row, col), list(times[:3]), list(self.fulltimes[:3])), case)
@@ -229,6 +238,27 @@ class Case(object):
                 ctx.violation('series-length', 'item %r: %d values; the listing has %d full result times and %d times incl. short output' % (
                     (spec, row, col), len(vals), self.N, len(self.times)), case)
                 return
+
+    def row_in_short_tables(self, table, kind, row):
+        rows = self.rows[table]
+        name = row if not isinstance(row, int) else rows[row]
+        if name not in rows or rows.count(name) > 1:
+            return False
+        blocks = [b for b in self.short if b['kind'] == kind]
+        if not blocks:
+            return False
+        keys = name if isinstance(name, tuple) else (name,)
+        for b in blocks:
+            hit = False
+            for keytext in b['rows']:
+                cands = [keytext[a:a + 5] for a in range(0, max(1, len(keytext) - 4))]
+                if all(any(own_fix(cand) == kname for cand in cands) for kname in keys):
+                    hit = True
+                    break
+            if not hit:
+                return False
+        self.ctx.count('rows_found_in_short_tables_by_own_scan')
+        return True
 
     def check_short_values(self, case, table, kind, row, col, vals):
         """Values at short-output times against the own scan of the raw text."""
